@@ -142,6 +142,11 @@ class ExactGeneric(Relation):
         nt = False
         big = max(a, b) > self.whole[ctx.tier if ctx.tier in self.whole
                                       else 'quick']
+        if big and 4.0 * a * b <= 4e6 and int(sp['ts'][1] * 6) == 0:
+            # one large region in six also gets its WHOLE mask made (up to
+            # 4e6 pixels): what to_mask does for big grids is part of it
+            big = False
+            ctx.label('whole-mask-large')
         if not big:
             # a returned mask is the caller's to edit (in-place thresholding,
             # normalising): the next mask must not see the edit
